@@ -105,3 +105,77 @@ func init() {
 		})
 	})
 }
+
+// family "render-order": the renderers applied to ONE table in every order and with repetitions (what a render
+// leaves on the table - measuring callbacks, properties on cells - is input for the next renderer).
+func init() {
+	c09ExtraFamilies = append(c09ExtraFamilies, func(x *X) {
+		tables := []struct {
+			name  string
+			build func(t tabular.Table)
+		}{
+			{"header(2) + ragged rows + separator + multi-line + nil item", func(t tabular.Table) {
+				t.AddHeaders("h1", "h2")
+				t.AddRowItems("a", nil)
+				t.AddSeparator()
+				t.AddRowItems("b\nc", "d", "e")
+				t.AppendNewRow()
+			}},
+			{"no header, one cell", func(t tabular.Table) { t.AddRowItems("x") }},
+			{"header only", func(t tabular.Table) { t.AddHeaders("h") }},
+		}
+		targets := allTargets()
+		var rs []Target
+		seen := map[string]bool{}
+		for _, tg := range targets {
+			// one entry point per format/decoration is enough here: what matters is the ORDER of formats
+			if tg.Via == "method" && !seen[tg.Name] {
+				seen[tg.Name] = true
+				rs = append(rs, tg)
+			}
+		}
+		if len(rs) > 9 {
+			rs = rs[:9]
+		}
+		depth := x.Pick(4, 5)
+		x.Explore("render-order", ExploreOpts{ShardDepth: 2, Bound: fmt.Sprintf("%d tables x all sequences of <=%d renders over %d wrapper-method targets (fresh wrapper each time, same table)", len(tables), depth, len(rs))}, func(c *Chooser) {
+			tb := tables[c.Choose(len(tables))]
+			t := tabular.New()
+			tb.build(t)
+			var ops []string
+			for step := 0; step < depth; step++ {
+				k := c.Choose(len(rs) + 1)
+				if k == 0 {
+					break
+				}
+				tg := rs[k-1]
+				ops = append(ops, tg.Name)
+				c.Logf("%s", tg.Name)
+				x.Transition(1)
+				r := renderBoth(tg, t)
+				tags := []string{"render_order", "target:" + tg.Format}
+				if step > 0 {
+					tags = append(tags, "after_other_renderers")
+				}
+				x.Clause("C09.no_panic")
+				if r.Panicked || r.ToPanicked {
+					site, val := r.Site, r.PanicVal
+					if !r.Panicked {
+						site, val = r.ToSite, r.ToPanicVal
+					}
+					x.FailSite("C09.no_panic", tags, site, "%s panicked: %v (in %s) on table [%s] after rendering it with %v", tg.Name, val, site, tb.name, ops[:len(ops)-1])
+					return
+				}
+				x.Clause("C09.error_means_no_text")
+				if r.Err != nil && r.Out != "" {
+					x.Fail("C09.error_means_no_text", tags, "%s returned error %q together with text after %v", tg.Name, r.Err, ops)
+					return
+				}
+			}
+			x.State(fmt.Sprint(tb.name, ops))
+			if len(ops) > 1 {
+				x.Nontrivial(fmt.Sprint(tb.name, ops))
+			}
+		})
+	})
+}
